@@ -126,6 +126,16 @@ func (s *RegionStorage) SaveRegion(region *metapb.Region) error {
 	return nil
 }
 
+// Remove deletes the key from region storage. The key is dropped from the
+// unflushed batch as well, otherwise the next flush would write a region that
+// has just been deleted back to the storage.
+func (s *RegionStorage) Remove(key string) error {
+	s.mu.Lock()
+	delete(s.batchRegions, key)
+	s.mu.Unlock()
+	return s.LeveldbKV.Remove(key)
+}
+
 func deleteRegion(kv kv.Base, region *metapb.Region) error {
 	return kv.Remove(regionPath(region.GetId()))
 }
